@@ -410,11 +410,12 @@ def replay(cex):
         ind = cex['ind'] & ((1 << case['aw']) - 1)
         bad = []
         for sim in (pyrtl.CompiledSimulation(block=block), pyrtl.Simulation(block=block)):
-            sim.step({'wa': ind, 'wd': 5, 'we': 1, 'ra': 0})
+            word = 5 | ((1 << (case['bw'] - 1)) if case['bw'] > 8 else 0)       # bits in the lowest and in the highest limb
+            sim.step({'wa': ind, 'wd': word, 'we': 1, 'ra': 0})
             sim.step({'wa': 0, 'wd': 0, 'we': 0, 'ra': ind})
             got = sim.inspect_mem(mem)[ind] if isinstance(sim, pyrtl.CompiledSimulation) else sim.inspect_mem(mem).get(ind, 0)
-            if got != 5 or sim.inspect('rd') != 5:
-                bad.append('%s: after writing 5 to address %d inspect_mem shows %r, the read port %r' % (type(sim).__name__, ind, got, sim.inspect('rd')))
+            if got != word or sim.inspect('rd') != word:
+                bad.append('%s: after writing %#x to address %d inspect_mem shows %r, the read port %r' % (type(sim).__name__, word, ind, got, sim.inspect('rd')))
         return bool(bad), '\n'.join(bad)
     block = prep(case)
     K = case['K']
